@@ -91,17 +91,19 @@ def project(tid, events):
         out.append({"ev": "outside", "reason": reason})
 
     inner = {}
+    born = [0]
     view = {}          # a component context is a view of the context it delegates to: a child created under it has that context as its parent
     for e in events:
         if e.get("within") and e["ev"] in ("add_resource", "add_factory"):
             inner.setdefault(e["within"], e)
-        if e["ev"] == "ctx.view":
-            view[e["ctx"]] = e["of"]
         if e.get("within") and e["ev"] == "svc.start":
             inner.setdefault(("svc", e["within"]), e)
     for e in events:
         ev = e["ev"]
-        if ev in ("reg", "cb.begin", "cb.end", "res.event", "ctx.view", "svc.start"):
+        if ev == "ctx.view":
+            view[e["ctx"]] = e["of"]
+            continue
+        if ev in ("reg", "cb.begin", "cb.end", "res.event", "svc.start"):
             continue
         if ev == "comp.get":
             # what a lookup through a ComponentContext finally gave its caller
@@ -141,10 +143,12 @@ def project(tid, events):
         if out and out[-1]["ev"] == "outside":
             break
         if ev == "ctx.new":
-            if len(ctx) >= MAX_CTX:
+            if born[0] >= MAX_CTX:
                 outside("too-many-contexts")
                 continue
-            ctx[e["ctx"]] = len(ctx) + 1
+            born[0] += 1
+            ctx[e["ctx"]] = born[0]          # (the address of a collected context may be used again: the new context gets a new number)
+            view.pop(e["ctx"], None)
         if e["ctx"] not in ctx or (ev == "ctx.new" and e["parent"] and e["parent"] not in ctx):
             outside("context-created-before-the-recording-began")
             continue
